@@ -47,8 +47,8 @@ CLASS_TEMPLATES = [
 ]  # fmt: skip
 DISTRACTORS = ["base", "Common", "structuretype", "StructureTyp", "Type", "Namespace", "StructureType.old", "CompositeType.fields", "Any.bak", "UnionType.v2", "SerializableType.orig"]
 NAME_POOL = {
-    "filters": ["indent", "join", "upper", "lineprefix", "id", "yamlfy", "type_to_template", "includes", "typename", "macrofy", "full_reference_name", "fresh_filter_a", "fresh_filter_b", "bits2bytes_ceil", "remove_blank_lines", "text_table", "alignment_prefix", "short_reference_name", "to_template_unique_name", "constant_value"],
-    "tests": ["defined", "none", "string", "StructureType", "structure", "IntegerType", "integer", "None", "saturated", "deprecated", "service_request", "zero_cost_primitive", "padding", "PaddingField", "constant", "fresh_test_a", "primitive", "variablelengtharray", "Any"],
+    "filters": ["indent", "join", "upper", "lineprefix", "id", "yamlfy", "type_to_template", "includes", "typename", "macrofy", "full_reference_name", "fresh_filter_a", "fresh_filter_b", "bits2bytes_ceil", "remove_blank_lines", "text_table", "alignment_prefix", "short_reference_name", "to_template_unique_name", "constant_value", "ln.c.macrofy", "ln.cpp.id", "ln.py.id", "ln.c.id", "ln.cpp.full_reference_name", "ln.fresh.filter"],
+    "tests": ["defined", "none", "string", "StructureType", "structure", "IntegerType", "integer", "None", "saturated", "deprecated", "service_request", "zero_cost_primitive", "padding", "PaddingField", "constant", "fresh_test_a", "primitive", "variablelengtharray", "Any", "ln.c.zero_cost_primitive", "ln.cpp.fresh_test"],
     "globals": ["ln", "options", "nunavut", "uses_queries", "now_utc", "range", "dict", "lipsum", "cycler", "joiner", "namespace", "typename_unsigned_length", "valuetoken_true", "fresh_global_a", "fresh_global_b"],
 }  # fmt: skip
 
